@@ -131,6 +131,12 @@ deriving Repr, DecidableEq
 
 def addLogged (e : Ent) (l : List Ent) : List Ent := if l.contains e then l else l ++ [e]
 
+/-- intended effect of new index flags: entries of rows whose entity changes flag are dropped, rows of
+    entities switched on are indexed from their current text -/
+def toggleIdx (s : Site) (on : Ent → Bool) : List (Slot × Word) :=
+  (s.idx.filter fun p => !(s.rows.any fun r => r.slot = p.1 && (s.indexOn r.ent != on r.ent))) ++
+  ((s.rows.filter fun r => on r.ent && !(s.indexOn r.ent)).flatMap fun r => r.text.map fun w => (r.slot, w))
+
 /-- local creation / update / deletion and model update at one site; `none` = not applicable (skipped) -/
 def localOp (d : Defects) (tick : Nat) (usedRows : List Nat) (s : Site) : Op → Option Site
   | .model _ v =>
@@ -139,12 +145,7 @@ def localOp (d : Defects) (tick : Nat) (usedRows : List Nat) (s : Site) : Op →
     else
       -- intended: the flag follows the model; an entity whose index is switched on is indexed from its
       -- current rows, one whose index is switched off loses its entries
-      let on : Ent → Bool := declaredOn v
-      let clean := s.idx.filter fun p =>
-        !(s.rows.any fun r => r.slot = p.1 && (s.indexOn r.ent != on r.ent))
-      let added := (s.rows.filter fun r => on r.ent && !(s.indexOn r.ent)).flatMap fun r =>
-        r.text.map fun w => (r.slot, w)
-      some { s with declared := v, indexOn := on, idx := clean ++ added }
+      some { s with declared := v, indexOn := declaredOn v, idx := toggleIdx s (declaredOn v) }
   | .new _ n e text =>
     -- (a used row number is in `usedRows`; the second test is redundant in reachable states)
     if usedRows.contains n || e ≥ 2 || (findRow n s.rows).isSome then none
